@@ -72,11 +72,12 @@ func (g Geometry) Chunks(i int) int {
 
 // DrawGeometry draws a geometry; 0 choices give one 16 KiB piece.
 func DrawGeometry(st *simrt.Stream, maxPieces int, big bool) Geometry {
-	sizes := []int64{16 << 10, 32 << 10, 64 << 10}
+	// (any multiple of 16 KiB is a legal piece length: not only powers of two)
+	sizes := []int64{16 << 10, 32 << 10, 64 << 10, 48 << 10}
 	if big {
-		sizes = append(sizes, 128<<10, 256<<10)
+		sizes = append(sizes, 128<<10, 256<<10, 112<<10)
 	}
-	ps := sizes[st.Weighted(4, 4, 2, 2, 1)%len(sizes)]
+	ps := sizes[st.Weighted(4, 4, 2, 2, 1, 1, 1)%len(sizes)]
 	n := 1 + st.Choice(maxPieces)
 	length := int64(n) * ps
 	switch st.Weighted(3, 3, 2, 2) {
